@@ -91,6 +91,8 @@ type alGate struct {
 	cwait    atomic.Int64 // closers waiting for the loop to end
 	cret     atomic.Int64
 	loopGoid atomic.Int64
+	ran      atomic.Int64 // tasks the loop has run (yield point loop.ran)
+	onTask   func()       // called by serve when the turn it allowed ran a task
 	// goroutines spawned by AddRemoteCandidate (its add runs as a task of its own) can be held back before they submit
 	asyncHold atomic.Bool
 	asyncGate chan struct{}
@@ -103,6 +105,11 @@ func (g *alGate) yield(site string) {
 		g.loopGoid.Store(goid())
 		g.parked.Store(true)
 		<-g.gate
+	case "loop.ran": // the task has run, its submitter has not been told yet: the history line belongs here
+		g.ran.Add(1)
+		if g.onTask != nil {
+			g.onTask()
+		}
 	case "loop.exit":
 		g.exited.Store(true)
 	case "run.errcheck":
@@ -328,6 +335,12 @@ func TestApiLin(t *testing.T) {
 			out.put(map[string]any{"ev": "Reset", "id": sc.ID, "handler": sc.Handler, "tag": sc.Tag})
 			var wg sync.WaitGroup
 			var lmu sync.Mutex // the log's lock: an invocation is logged before the call starts, a return after it came back
+			// every task the loop runs is a line of the history too: the steps of the model that are loop tasks happen at these lines
+			g.onTask = func() {
+				lmu.Lock()
+				out.put(map[string]any{"ev": "task"})
+				lmu.Unlock()
+			}
 			returned := map[string]bool{}
 			for _, s := range sc.Steps {
 				st["steps"]++
